@@ -9,13 +9,14 @@ through the extracted model."""
 import json
 from fractions import Fraction
 from math import gcd
+import vlib
 from vlib import sx, Sym, parse_sx, try_parse, cps
 import fmtlib as F
 
 TRUSTED_BASE = [
     'Coq 8.16.1 kernel + vm_compute (finite sweeps: digit characters 0..35, bases 2..36 for the u128 grouping bound)',
     'extraction ExtrOcamlBasic -> OCaml 4.13.1, modelrun/driver.ml (byte <-> N conversion only); cross-checked against vm_compute on a sample',
-    'harness/src/bin/h_fmt.rs and /repo/core/src/verif_hooks/fmt.rs (builds a Value through the crate codec, calls Value::format / BigUint::format / lexer::lex / evaluate)',
+    'harness/src/bin/h_fmt.rs and ' + vlib.REPO + '/core/src/verif_hooks/fmt.rs (builds a Value through the crate codec, calls Value::format / BigUint::format / lexer::lex / evaluate)',
     'hand-written models coq/Fmt/Format.v, coq/Fmt/Lex.v tied to core/src/num/{biguint,bigrat,base,formatting_style,real,complex,unit}.rs and core/src/lexer.rs only by this differential run',
     'big integers are taken at value level (Coq N); limb arithmetic is C01; u64 Display of Rust std is modelled as plain decimal',
     'gen/fmtlib.py reference renderer (Python int/Fraction) for the digit-for-digit clause',
@@ -417,8 +418,8 @@ def check(c):
               'prefixed bases; random p to 10^60 over terminating / long-period / mixed denominators; L1 fmt-int: limb vectors around b^rounds, 2^64, 2^128, '
               'sf limits, leading zero limbs; L1 lex: literals from the show_lit grammar (separators, case, fraction, recurring, exponent, all prefixes) with follow '
               'strings, plus a malformed stream; L2: (p/q) to base B to style, reparse with prefix restored. non-trivial = not a single digit; distinct by case key')
-    ok = c.proof(['C02'], extra_targets=['Extract/XFmt.vo'])
-    if c.tier == 'thorough' and ok:
+    c.proof(['C02'], extra_targets=['Extract/XFmt.vo'])
+    if c.tier == 'thorough':
         c.thorough_proof(['C02'])
     check_fmt(c)
     check_int(c)
